@@ -12,6 +12,21 @@ import (
 // vCheckC28 states the clauses of C28 on the result of the real Combine for one shape.
 func vCheckC28(paths []Path, refs []vRef, findAllIdentical bool, observeOrdered bool) {
 	verif.Observe("npaths", len(paths))
+	// earliest hop-field expiry of every reference combination, by case split on which hop field
+	// expires first (one fork per comparison): the minimum of symbolic lexicographic times is hard
+	// for the solver in one piece and easy per case
+	earliest := make([]time.Time, len(refs))
+	for ri := range refs {
+		exps := refs[ri].expiries()
+		mi := 0
+		for h := 1; h < len(exps); h++ {
+			if exps[h].Before(exps[mi]) {
+				verif.Cover("expiry-order-split") // (also keeps the engine from if-converting the split)
+				mi = h
+			}
+		}
+		earliest[ri] = exps[mi]
+	}
 	var sumMTU, sumW uint64
 	var sumExp int64
 	for k := range paths {
@@ -62,14 +77,8 @@ func vCheckC28(paths []Path, refs []vRef, findAllIdentical bool, observeOrdered 
 		// Every combination with these path bytes has the same hop-field expiries (timestamps and
 		// ExpTime are part of the bytes), so the clause is stated for each matching combination.
 		for ri := range refs {
-			m := ms[ri]
-			var isOne uint8
-			for _, x := range refs[ri].expiries() {
-				isOne |= vB2U(p.Metadata.Expiry.Equal(x))
-				later := vB2U(p.Metadata.Expiry.After(x))
-				verif.Assert("expiry-not-later-than-any-hop-field-expiry", m&later == 0)
-			}
-			verif.Assert("expiry-is-some-hop-field-expiry", m&(1-isOne) == 0)
+			verif.Assert("expiry-is-earliest-hop-field-expiry",
+				ms[ri]&(1-vB2U(p.Metadata.Expiry.Equal(earliest[ri]))) == 0)
 		}
 
 		// -- ordered by non-decreasing weight
@@ -88,11 +97,8 @@ func vCheckC28(paths []Path, refs []vRef, findAllIdentical bool, observeOrdered 
 			for ri := range refs {
 				r := &refs[ri]
 				same := vB2U(r.valid) & vSameIntfs(intfs, r.interfaces())
-				var notEarlier uint8 // p.Expiry >= min over r's hops
-				for _, x := range r.expiries() {
-					notEarlier |= 1 - vB2U(x.After(p.Metadata.Expiry))
-				}
-				verif.Assert("kept-duplicate-has-latest-expiry", same&(1-notEarlier) == 0)
+				// p.Expiry >= earliest hop-field expiry of r
+				verif.Assert("kept-duplicate-has-latest-expiry", same&vB2U(earliest[ri].After(p.Metadata.Expiry)) == 0)
 			}
 		}
 		sumMTU += uint64(p.Metadata.MTU)
